@@ -14,6 +14,7 @@ SCOPE = [
     "allocation_journal::decode", "allocation_journal::decode_slot", "allocation_journal::journal_checksum",
     "allocation_journal::journal_image_size",
     "Metadata::from_bytes", "Metadata::validate", "Metadata::checksum", "Metadata::generation",
+    "Metadata::advance_generation", "Metadata::refresh_checksum", "Metadata::encode",      # run on whatever metadata was read from the device
     "FormatV1 as storage::format::RecordFormat>::parse_record", "FormatV2 as storage::format::RecordFormat>::parse_record",
     "FormatV1 as storage::format::RecordFormat>::record_header_size", "FormatV2 as storage::format::RecordFormat>::record_header_size",
     "FormatV1 as storage::format::RecordFormat>::total_size", "FormatV2 as storage::format::RecordFormat>::total_size",
